@@ -432,6 +432,29 @@ func ruleCommaListElement(r *Run) {
 	inv.Check(nSites >= 4, "-", fmt.Sprintf("%d comma edges in list loops", nSites), fmt.Sprintf("only %d comma edges in list loops found, floor 4", nSites))
 }
 
+// pkgClosure: fn and everything of its package it reaches through static calls and function
+// literals (no depth bound).
+func pkgClosure(fn *ssa.Function) []*ssa.Function {
+	var out []*ssa.Function
+	seen := map[*ssa.Function]bool{}
+	var add func(f *ssa.Function)
+	add = func(f *ssa.Function) {
+		if f == nil || seen[f] || f.Blocks == nil || pkgOfFunc(f) != pkgOfFunc(fn) {
+			return
+		}
+		seen[f] = true
+		out = append(out, f)
+		for _, a := range f.AnonFuncs {
+			add(a)
+		}
+		for _, c := range callsIn(f) {
+			add(staticCallee(c))
+		}
+	}
+	add(fn)
+	return out
+}
+
 // ruleStepTimestampMillis (AF): the time stamped on a reported point keeps the grid's
 // sub-second part: an integer Unix time is converted to floating point before it is scaled to
 // seconds, by the unit's own factor.
@@ -445,7 +468,7 @@ func ruleStepTimestampMillis(r *Run) {
 	}
 	scale := map[string]float64{"UnixMilli": 1e3, "UnixMicro": 1e6, "UnixNano": 1e9}
 	n, good := 0, true
-	for _, fn := range funcGroup(rs) {
+	for _, fn := range pkgClosure(rs) {
 		for _, c := range callsIn(fn) {
 			pk, nm := calleePkgName(c)
 			if pk != "time" || !strings.HasPrefix(nm, "Unix") || c.Common().Signature().Recv() == nil {
@@ -882,7 +905,7 @@ func ruleSampleValueFormat(r *Run) {
 		o.Fail("-", "ReadStepResponse not found")
 		return
 	}
-	grp := funcGroup(rs)
+	grp := pkgClosure(rs)
 	var isFmt func(v ssa.Value, d int) (bool, string)
 	isFmt = func(v ssa.Value, d int) (bool, string) {
 		if d > 4 {
@@ -946,8 +969,8 @@ func ruleSampleValueFormat(r *Run) {
 			}
 		})
 	}
-	if n < 2 {
-		o.Fail(r.pos(rs.Pos()), "only %d store(s) of FPoint.V found (instant and range form expected)", n)
+	if n < 1 {
+		o.Fail(r.pos(rs.Pos()), "no store of FPoint.V found in ReadStepResponse and its helpers")
 		return
 	}
 	if good {
